@@ -17,7 +17,7 @@ RES = sys.argv[2] if len(sys.argv) > 2 else "/tmp/seedwt/results"
 # change and exited 0 (or 3) before the addition; for the others the addition was made on reading the change's description,
 # before the first run against it.
 OBSERVED_MISS = {"C03_b", "C04_a", "C05_a", "C07_b", "C09_a", "C09_b", "C11_a", "C11_b", "C12_b", "C14_a", "C16_b", "C18_a",
-                 "C04_c", "C06_c", "C14_d", "C19_d"}
+                 "C04_c", "C06_c", "C14_d", "C19_d", "C20_a"}
 STRENGTHENED = {
     "C03_b": "C03 quick tier gained a triclinic configuration; the np.linalg.solve facade was missing (harness error before)",
     "C04_a": "C04: two-frame configurations for every species count (ternary and up were single-frame)",
@@ -52,6 +52,8 @@ STRENGTHENED = {
     "C18_d": "C18: Dynamics.sq4 asked twice with different wave-number ranges on one object, compared with a fresh object",
     "C19_d": "C19: structural harness for read_lammpslog (row counts per section are integer symbols forked by the engine) - "
              "the log reader was outside the claim before",
+    "C20_a": "C20: the harness indexed the stub's list of boxes (harness error when only one box is built); box lengths per frame are now "
+             "checked on the returned objects, in the symbolic run and on the real library's boxes in the replay",
     "C20_b": "C20: the written neighbour file is also read back with Nmax smaller than a coordination number (same reader site as C05_b)",
     "C02_d": "np.allclose / np.isclose facade by documented semantics (added while this change was running; not needed for the verdict)",
 }
